@@ -914,11 +914,42 @@ func callSiteArgs(p *Program, f *ssa.Function, idx int) []ssa.Value {
 func staticCallersOf(p *Program, g *ssa.Function) []*ssa.Function {
 	seen := map[*ssa.Function]bool{}
 	var out []*ssa.Function
+	// refersTo: h is g, or a synthetic wrapper (bound method, thunk) around g
+	refersTo := func(h *ssa.Function) bool {
+		if h == g {
+			return true
+		}
+		if h.Synthetic == "" || h.Blocks == nil {
+			return false
+		}
+		hit := false
+		instrsOf(h, func(in ssa.Instruction) {
+			if ci, ok := in.(ssa.CallInstruction); ok && ci.Common().StaticCallee() == g {
+				hit = true
+			}
+		})
+		return hit
+	}
 	for _, f := range p.ModuleFuncs("") {
 		instrsOf(f, func(in ssa.Instruction) {
-			if ci, ok := in.(ssa.CallInstruction); ok && ci.Common().StaticCallee() == g && !seen[f] {
+			if seen[f] {
+				return
+			}
+			if ci, ok := in.(ssa.CallInstruction); ok && ci.Common().StaticCallee() == g {
 				seen[f] = true
 				out = append(out, f)
+				return
+			}
+			// g taken as a value (a method value stored in a hook, a callback argument): whoever takes it may call it
+			for _, op := range in.Operands(nil) {
+				if h, ok := (*op).(*ssa.Function); ok && refersTo(h) {
+					if ci, isCall := in.(ssa.CallInstruction); isCall && ci.Common().Value == *op {
+						continue
+					}
+					seen[f] = true
+					out = append(out, f)
+					return
+				}
 			}
 		})
 	}
